@@ -535,6 +535,13 @@ func (c *ClientConn) SendUpstreamCloseRequest(ctx context.Context, req *message.
 	}
 
 	delete(c.upstreams.aliases, req.StreamID)
+	for _, a := range c.upstreams.aliases {
+		if a == alias {
+			// the broker has already given the alias to another stream (its open response was
+			// handled before we got here): the tables under that alias are that stream's now
+			return resp, nil
+		}
+	}
 
 	if _, ok = c.upstreams.acks[alias]; ok {
 		delete(c.upstreams.acks, alias)
